@@ -500,3 +500,258 @@ def group_assets(assets):
 def pick_asset(rng, groups):
     k = rng.choice(sorted(groups))
     return rng.choice(groups[k])
+
+
+# ------------------------------------------------------------------------------------------------ cap amplification
+# Synthetic files that make each collection with a documented maximum (a MAX_* constant in the module source) reach
+# cap - 1, cap, cap + 1 and well beyond.  Deterministic builders; the files live in .work/synth (rebuilt when missing).
+WORK_SYNTH = os.path.join(core.VERIF, ".work", "synth")
+
+
+def _pe32(section_bytes, dirs, nsec_headers=None, extra_tail=b""):
+    """PE32 with one real section (RVA 0x1000, file offset = headers size) holding `section_bytes`; dirs: {index:
+    (rva, size)}; nsec_headers: total number of section headers to declare (copies of the real one)."""
+    n = nsec_headers or 1
+    hdr_len = (0x58 + 224 + 40 * n + 0x1ff) & ~0x1ff
+    raw_len = (len(section_bytes) + 0x1ff) & ~0x1ff
+    pe = bytearray(hdr_len)
+    pe[0:2] = b"MZ"
+    struct.pack_into("<I", pe, 0x3c, 0x40)
+    pe[0x40:0x44] = b"PE\0\0"
+    fh = 0x44
+    struct.pack_into("<HH", pe, fh, 0x14c, n)
+    struct.pack_into("<HH", pe, fh + 16, 224, 0x0102)
+    oh = 0x58
+    struct.pack_into("<H", pe, oh, 0x10b)
+    struct.pack_into("<II", pe, oh + 16, 0x1000, 0x1000)
+    struct.pack_into("<III", pe, oh + 28, 0x400000, 0x1000, 0x200)
+    struct.pack_into("<H", pe, oh + 40, 4)
+    struct.pack_into("<H", pe, oh + 48, 4)
+    struct.pack_into("<II", pe, oh + 56, 0x1000 + ((raw_len + 0xfff) & ~0xfff), hdr_len)
+    struct.pack_into("<H", pe, oh + 68, 3)
+    struct.pack_into("<I", pe, oh + 92, 16)
+    for i, (rva, size) in dirs.items():
+        struct.pack_into("<II", pe, oh + 96 + 8 * i, rva, size)
+    sh = oh + 224
+    for k in range(n):
+        o = sh + 40 * k
+        pe[o:o + 6] = b".idata" if k == 0 else b".s%04d" % (k % 10000)
+        struct.pack_into("<IIII", pe, o + 8, raw_len, 0x1000, raw_len, hdr_len)
+        struct.pack_into("<I", pe, o + 36, 0xC0000040)
+    return bytes(pe) + section_bytes + bytes(raw_len - len(section_bytes)) + extra_tail
+
+
+def pe_with_imports(libs, delayed=False):
+    """one descriptor per entry of `libs`, importing libs[i] functions by ordinal"""
+    dsz = 32 if delayed else 20
+    nb_desc = len(libs) + 1
+    names_off = nb_desc * dsz
+    thunks_off = (names_off + len(libs) * 16 + 15) & ~15
+    total = sum(n + 1 for n in libs)
+    sec = bytearray(thunks_off + total * 4)
+    for i, nb in enumerate(libs):
+        name = b"lib%04d.dll" % (i % 10000)
+        no = names_off + i * 16
+        sec[no:no + len(name)] = name
+        d = i * dsz
+        trva = 0x1000 + thunks_off
+        if delayed:
+            struct.pack_into("<IIIII", sec, d, 1, 0x1000 + no, 0, trva, trva)
+        else:
+            struct.pack_into("<I", sec, d, trva)
+            struct.pack_into("<II", sec, d + 12, 0x1000 + no, trva)
+        for j in range(nb):
+            struct.pack_into("<I", sec, thunks_off + 4 * j, 0x80000000 | (j % 1000 + 1))
+        thunks_off += (nb + 1) * 4
+    return _pe32(bytes(sec), {(13 if delayed else 1): (0x1000, nb_desc * dsz)})
+
+
+def pe_with_sections(n):
+    return _pe32(bytes(64), {}, nsec_headers=n)
+
+
+def pe_with_exports(n):
+    # export directory (40 bytes) + address table; no names
+    sec = bytearray(40 + 16 + 4 * n)
+    name_off = 40
+    sec[name_off:name_off + 8] = b"exp.dll\0"
+    struct.pack_into("<I", sec, 12, 0x1000 + name_off)
+    struct.pack_into("<III", sec, 16, 1, n, 0)                 # ordinal base, nb functions, nb names
+    struct.pack_into("<III", sec, 28, 0x1000 + 56, 0, 0)       # address table rva
+    for j in range(n):
+        struct.pack_into("<I", sec, 56 + 4 * j, 0x2000 + j)
+    return _pe32(bytes(sec), {0: (0x1000, len(sec))})
+
+
+def pe_with_resources(n):
+    # root -> 1 type (id 10) -> 1 name (id 1) -> n languages -> n data entries
+    root = 0
+    tdir = 16 + 8
+    ndir = tdir + 16 + 8
+    ldir_end = ndir + 16 + 8 * n
+    sec = bytearray(ldir_end + 16 * n + 16)
+    struct.pack_into("<HH", sec, root + 12, 0, 1)
+    struct.pack_into("<II", sec, root + 16, 10, 0x80000000 | tdir)
+    struct.pack_into("<HH", sec, tdir + 12, 0, 1)
+    struct.pack_into("<II", sec, tdir + 16, 1, 0x80000000 | ndir)
+    struct.pack_into("<HH", sec, ndir + 12, 0, n & 0xFFFF)
+    if n > 0xFFFF:
+        # number_of_id_entries is a u16: split between named and id entries
+        struct.pack_into("<HH", sec, ndir + 12, n - 0xFFFF, 0xFFFF)
+    for j in range(n):
+        struct.pack_into("<II", sec, ndir + 16 + 8 * j, j & 0x7FFFFFFF, ldir_end + 16 * j)
+        struct.pack_into("<IIII", sec, ldir_end + 16 * j, 0x1000 + ldir_end, 4, 0, 0)
+    return _pe32(bytes(sec), {2: (0x1000, len(sec))})
+
+
+def pe_with_certs(signed_asset_bytes, k):
+    """amplify a signed asset: its WIN_CERTIFICATE entry repeated k times at the end of the file"""
+    b = bytearray(signed_asset_bytes)
+    nt = u32(b, 0x3c)
+    opt = nt + 24
+    dd = opt + (112 if u16(b, opt) == 0x20b else 96)
+    off, size = u32(b, dd + 8 * 4), u32(b, dd + 8 * 4 + 4)
+    ln = u32(b, off)
+    entry = bytes(b[off:off + ln])
+    entry += bytes((-len(entry)) % 8)
+    while len(b) % 8:
+        b.append(0)
+    new_off = len(b)
+    b += entry * k
+    struct.pack_into("<II", b, dd + 8 * 4, new_off, len(entry) * k)
+    return bytes(b)
+
+
+def elf32(nsections=0, nsegments=0, ndynamic=0, nsymbols=0, dynsym=False):
+    """ELF32 LE, ET_EXEC; tables laid out one after the other"""
+    ehsize = 52
+    out = bytearray(ehsize)
+    out[0:7] = b"\x7fELF\x01\x01\x01"
+    struct.pack_into("<HHI", out, 16, 2, 3, 1)
+    struct.pack_into("<I", out, 24, 0x8048000)
+    phoff = len(out) if nsegments else 0
+    for i in range(nsegments):
+        out += struct.pack("<IIIIIIII", 1, 0, 0x8048000 + 0x1000 * (i % 1000), 0, 16, 16, 5, 0x1000)
+    data_secs = []          # (type, offset, size, entsize, link)
+    if ndynamic:
+        o = len(out)
+        for i in range(ndynamic):
+            out += struct.pack("<II", 1 + (i % 3), i)          # never DT_NULL
+        data_secs.append((6, o, ndynamic * 8, 8, 0))
+    if nsymbols:
+        o = len(out)
+        for i in range(nsymbols):
+            out += struct.pack("<IIIBBH", 1, i, 4, 0x12, 0, 1)
+        so = len(out)
+        out += b"\0sym\0"
+        data_secs.append((11 if dynsym else 2, o, nsymbols * 16, 16, len(data_secs) + 2))
+        data_secs.append((3, so, 5, 0, 0))
+    shstrndx = 0
+    if nsections or data_secs:
+        # object refuses e_shstrndx = 0: a section-name string table is mandatory
+        so = len(out)
+        out += b"\0.s\0"
+        data_secs.append((3, so, 4, 0, 0))
+        shstrndx = len(data_secs)
+    nsh = max(nsections, len(data_secs) + 1 if data_secs else 0)
+    shoff = len(out) if nsh else 0
+    for i in range(nsh):
+        if 1 <= i <= len(data_secs):
+            ty, o, sz, es, link = data_secs[i - 1]
+            out += struct.pack("<IIIIIIIIII", 1, ty, 2, 0x8050000 + o, o, sz, link, 0, 4, es)
+        elif i == 0:
+            out += bytes(40)
+        else:
+            out += struct.pack("<IIIIIIIIII", 1, 1, 2, 0x8060000 + i, ehsize, 0, 0, 0, 1, 0)
+    if ndynamic and nsegments:
+        # PT_DYNAMIC pointing at the dynamic entries
+        ty, o, sz, _, _ = data_secs[0]
+        struct.pack_into("<IIIIIIII", out, phoff, 2, o, 0x8050000 + o, 0, sz, sz, 6, 4)
+    struct.pack_into("<II", out, 28, phoff, shoff)
+    struct.pack_into("<HHHHHH", out, 40, ehsize, 32, nsegments & 0xFFFF, 40, nsh & 0xFFFF, shstrndx)
+    return bytes(out)
+
+
+def macho32(nsegments=1, nsections=0):
+    """Mach-O 32 LE with `nsegments` LC_SEGMENT commands; the first one has `nsections` sections"""
+    cmds = bytearray()
+    for i in range(nsegments):
+        ns = nsections if i == 0 else 0
+        seg = bytearray(56 + 68 * ns)
+        struct.pack_into("<II", seg, 0, 1, len(seg))
+        seg[8:8 + 6] = b"__TEXT"
+        struct.pack_into("<IIIIIIII", seg, 24, 0x1000 * i, 0x1000, 0, 0, 7, 5, ns, 0)
+        for j in range(ns):
+            o = 56 + 68 * j
+            seg[o:o + 6] = b"__text"
+            seg[o + 16:o + 22] = b"__TEXT"
+            struct.pack_into("<II", seg, o + 32, 0x1000 + j, 1)
+        cmds += seg
+    hdr = struct.pack("<IIIIIII", 0xfeedface, 7, 3, 2, nsegments, len(cmds), 0)
+    return hdr + bytes(cmds)
+
+
+def macho_fat(narchs):
+    thin = macho32(1, 1)
+    table = 8 + 20 * narchs
+    off = (table + 15) & ~15
+    out = bytearray(off) + thin
+    struct.pack_into(">II", out, 0, 0xcafebabe, narchs)
+    for i in range(narchs):
+        struct.pack_into(">IIIII", out, 8 + 20 * i, 7, 3 + (i << 8), off, len(thin), 0)
+    return bytes(out)
+
+
+def synth_specs(assets, caps):
+    """[(name, builder thunk, module, collection path string, requested count)] around every reachable cap.
+    `caps`: {const name: value} translated from the source."""
+    S = []
+    c = caps
+
+    def around(cap, big):
+        return [cap - 1, cap, cap + 1, big]
+    for n in around(c["MAX_PE_SECTIONS"], 200):
+        S.append(("pe_sections_%d" % n, (lambda n=n: pe_with_sections(n)), "pe", "sections", n))
+    I = c["MAX_PE_IMPORTS"]
+    for libs in ([I - 1], [I], [I + 1], [I + 3616], [I - 384, 1000], [5000, 5000, 5000, 5000], [1] * (I + 1)):
+        tag = "x".join(str(x) for x in libs[:4]) + ("_%dlibs" % len(libs) if len(libs) > 4 else "")
+        S.append(("pe_imports_" + tag, (lambda libs=libs: pe_with_imports(libs)), "pe", "import_details[].functions", sum(libs)))
+        S.append(("pe_delayed_" + tag, (lambda libs=libs: pe_with_imports(libs, True)), "pe", "delayed_import_details[].functions", sum(libs)))
+    for n in around(c["MAX_PE_EXPORTS"], c["MAX_PE_EXPORTS"] + 3616):
+        S.append(("pe_exports_%d" % n, (lambda n=n: pe_with_exports(n)), "pe", "export_details", n))
+    for n in around(c["MAX_RESOURCES"], c["MAX_RESOURCES"] + 900):
+        S.append(("pe_resources_%d" % n, (lambda n=n: pe_with_resources(n)), "pe", "resources", n))
+    signed = sorted(a for a in assets if "/pe/signed/" in a[0])
+    if signed:
+        sb = signed[0][1]
+        for n in around(c["MAX_PE_CERTS"], 40):
+            S.append(("pe_certs_%d" % n, (lambda n=n: pe_with_certs(sb, n)), "pe", "signatures", n))
+    E = c["MAX_NB_SECTIONS_elf"]
+    for n in around(E, E + 1000):
+        S.append(("elf_sections_%d" % n, (lambda n=n: elf32(nsections=n)), "elf", "sections", n))
+        S.append(("elf_segments_%d" % n, (lambda n=n: elf32(nsegments=n)), "elf", "segments", n))
+        S.append(("elf_dynamic_%d" % n, (lambda n=n: elf32(nsegments=1, ndynamic=n)), "elf", "dynamic", n))
+        S.append(("elf_symtab_%d" % n, (lambda n=n: elf32(nsymbols=n)), "elf", "symtab", n))
+        S.append(("elf_dynsym_%d" % n, (lambda n=n: elf32(nsymbols=n, dynsym=True)), "elf", "dynsym", n))
+    M = c["MAX_NB_SEGMENTS_macho"]
+    for n in around(M, M + 500):
+        S.append(("macho_segments_%d" % n, (lambda n=n: macho32(nsegments=n)), "macho", "segments", n))
+        S.append(("macho_sections_%d" % n, (lambda n=n: macho32(1, n)), "macho", "segments[].sections", n))
+    for n in around(c["MAX_NB_ARCHS"], 300):
+        S.append(("macho_fat_%d" % n, (lambda n=n: macho_fat(n)), "macho", "fat_arch", n))
+    return S
+
+
+def build_synth(specs):
+    """materialise the files; returns {name: path}"""
+    os.makedirs(WORK_SYNTH, exist_ok=True)
+    out = {}
+    for name, thunk, _, _, _ in specs:
+        p = os.path.join(WORK_SYNTH, name + ".bin")
+        if not os.path.exists(p):
+            data = thunk()
+            tmp = p + ".tmp%d" % os.getpid()
+            open(tmp, "wb").write(data)
+            os.replace(tmp, p)
+        out[name] = p
+    return out
